@@ -23,4 +23,19 @@ PROPS = {
         "theorem_status": {"C16_ok_bijection": "proved", "C16_err_iff_clash": "proved", "C16_total": "proved",
                            "C16_raw_injective": "proved", "C16_emitted_bijection": "proved"},
     },
+    "C11": {
+        "coq": ["Properties/C11.v", "Corr/C11corr.v"],
+        "trusted": [
+            "net/url's url.Parse/URL.String modelled only as split at first '#'/'?' of ordinary absolute URLs (generator restricts endpoints accordingly); http.NewRequest, Header.Set and Request.WithContext are observed, not modelled",
+            "encoding/json's encoding of the POST body is observed (decoded by the harness), not modelled at byte level; variables enter the model as the bytes json.Marshal produced",
+            "gqlparser's parser decides in the oracle which operation kind a document has",
+        ],
+        "assumptions": ["request strings are valid UTF-8 (json.Marshal replaces invalid bytes; the property quantifies over Unicode text)"],
+        "level_text": "Theorems for all byte strings / parameter lists / endpoints / requests: QueryUnescape(QueryEscape s)=s (256-case sweep lifted + induction), ParseQuery(Values.Encode l) preserves every key's value list, the GET URL decodes to exactly the specified parameters with base and fragment untouched, POST fields verbatim, and the operation-kind gate for every generator-shaped document; the gate over arbitrary hand-written text is refuted (known finding). Model tied to client.go by byte-exact comparison of predicted and real request URLs/bodies on ~1500 generated requests per run, inside the Coq kernel.",
+        "level_note": "Trusted: Coq kernel + vm_compute; hand-written model of client.go createGetRequest/createPostRequest and of net/url's query codec, validated per run (byte-exact URL equality); endpoint syntax restricted to ordinary absolute URLs; JSON body encoding observed not modelled.",
+        "theorem_status": {"C11_codec_roundtrip": "proved", "C11_values_roundtrip": "proved", "C11_get_roundtrip": "proved",
+                           "C11_post_fields": "proved", "C11_gate_get_mutation": "proved", "C11_gate_get_subscription": "proved",
+                           "C11_gate_post_subscription": "proved", "C11_gate_accepts_allowed": "proved",
+                           "C11_gate_arbitrary_refuted": "refuted (witness: leading comment) - open finding C11/gate-textual-prefix-bypass"},
+    },
 }
